@@ -143,7 +143,7 @@ private theorem checks_consistent (s : Sizes) (hc : Consistent s) (len : Nat) (j
     simp only [e1] at he
     rw [if_neg (by omega : ¬ s.ec + 1 < s.bc), if_neg (by omega : ¬ (s.bc < s.ec + 1 ∧ 255 < s.ec)),
       if_neg (by omega : ¬ (s.bc < s.ec + 1 ∧ 255 < s.bc)),
-      if_neg (by omega : ¬ (s.nw = 0 ∨ s.nh = 0 ∨ s.nd = 0 ∨ s.ni = 0)), if_neg (by omega : ¬ 255 < s.ne)] at he
+      if_neg (by omega : ¬ (s.nw = 0 ∨ s.nh = 0 ∨ s.nd = 0 ∨ s.ni = 0)), if_neg (by omega : ¬ 256 < s.ne)] at he
     have h6 : ¬ (¬ (-lim16 ≤ sumI s.parts ∧ sumI s.parts < lim16) ∨ s.lf ≠ sumI s.parts) := by
       simp only [lim16]; omega
     rw [if_neg h6] at he
